@@ -115,7 +115,8 @@ func (t TypeURLMap) SetFromSchema(schema map[string]*ast.Definition, url string)
 		}
 
 		for _, f := range v.Fields {
-			if common.IsBuiltinName(f.Name) || isNodeField(f) {
+			// the Relay entry point is served by the gateway itself
+			if common.IsBuiltinName(f.Name) || (common.IsQueryObjectName(k) && isNodeField(f)) {
 				continue
 			}
 
